@@ -107,6 +107,12 @@ def wta(R, C, D, measure, invalid='-9999', stripe=None, seed=0, subpix=1, dmin=-
         ovm = out["validity_mask"].data; ocf = out["confidence_measure"].data
         props.append(("validity-mask-carried", z3.And(*[S.term_eq(ovm._a[i], vm0._a[i], 'u2') for i in np.ndindex(R, C)])))
         props.append(("confidence-carried", z3.And(*[S.term_eq(ocf._a[i], cf0._a[i], 'f4') for i in np.ndindex(R, C, 1)])))
+        # the map's flags and confidence are copies: a later step raising a bit on the map must not write into the cost volume dataset
+        def _alias(a, b):
+            return a is b or (isinstance(a, S.SymArray) and isinstance(b, S.SymArray) and (a._a is b._a or np.shares_memory(a._a, b._a)))
+        # (the confidence bands ARE shared with the cost volume dataset by the real code; later steps allocate new band arrays instead of
+        # writing in place, so only the flags are required to be a copy)
+        props.append(("map-flags-do-not-alias-the-cost-volume-dataset", z3.BoolVal(not _alias(ovm, ds["validity_mask"].data))))
         di = np.asarray(out["disparity_interval"].data, dtype=np.float64)
         props.append(("interval-stored", z3.BoolVal(bool(di[0] == disps[0] and di[1] == disps[-1]))))
         dix = ds["disp_indices"].data
@@ -188,4 +194,8 @@ def replay(cex):
     di = out["disparity_interval"].data
     if not (di[0] == disps[0] and di[1] == disps[-1]):
         bad.append('stored interval %s' % (di,))
+    if np.shares_memory(out["validity_mask"].data, ds["validity_mask"].data):
+        out["validity_mask"].data[0, 0] |= 8
+        bad.append('the validity mask of the disparity map aliases the one of the cost volume dataset: raising bit 3 on the map changed the cost volume flags to %s'
+                   % int(ds["validity_mask"].data[0, 0]))
     return {'violates': bool(bad), 'detail': '; '.join(bad[:3])}
